@@ -167,6 +167,11 @@ impl Watchdog {
         self.started.store(0, Ordering::Relaxed);
     }
 
+    /// label of the call that is (or was last) running
+    pub fn current(&self) -> String {
+        self.what.lock().clone()
+    }
+
     pub fn stop(&self) {
         self.stop.store(true, Ordering::Relaxed);
     }
